@@ -10,7 +10,17 @@ import re
 from hypothesis import strategies as st
 
 from .. import cgstage, gencc, genir
-from ..core import Discard, HarnessError, Stats, hyp_search, open_finding_ids, subseed
+import os
+
+from ..core import Discard, HarnessError, Stats, hyp_search, subseed
+from ..core import open_finding_ids as _core_open_ids
+
+
+def open_finding_ids(pid):
+    """open findings minus VERIF_ASSUME_FIXED=<id,id,...> (used to validate a fix in a patched scratch copy:
+    exclusion and classification of those findings are lifted)"""
+    assumed = {x.strip() for x in os.environ.get("VERIF_ASSUME_FIXED", "").split(",") if x.strip()}
+    return set(_core_open_ids(pid)) - assumed
 
 PID = "C29"
 RULE = (
@@ -39,7 +49,7 @@ LEVEL_TEXT = (
     "pattern table, so per-class coverage (reported per target) is the fitting measure; no bound is closed."
 )
 
-TARGETS = cgstage.TARGETS
+TARGETS = tuple(cgstage.TARGETS)
 
 # ---------------------------------------------------------------------------
 # open findings: signature = targets + exception type + innermost frame + regex every offending detail must match;
@@ -74,10 +84,32 @@ FINDINGS = [
      "classes": r"cjmp <= (i8|i16|i32) "},
     {"id": "C29-KF12", "targets": ("arm",), "sig": SEL, "detail": r"CONST(I8|U8)",
      "ins": lambda ins: ins[0] == "const" and ins[2] in ("i8", "u8") and not 0 <= ins[3] < 256, "repl": lambda ins: ins[:3] + [ins[3] & 0x7F]},
+    {"id": "C29-KF13", "targets": TARGETS, "sig": ("AssertionError", "binutils/outstream.py:do_emit"), "detail": r"",
+     "pred": lambda case: case["level"] != "0" and _module_facts(case)["self_tail_call_functions"] >= 2},
+    {"id": "C29-KF14", "targets": ("arm:thumb",), "sig": ("TypeError", "arch/encoding.py:__init__"),
+     "detail": r"N arguments given, but <class 'ppci\.arch\.arm\.thumb_instructions\.StrN'> expects N",
+     "pred": lambda case: _module_facts(case)["max_call_args"] > 4},
     {"id": "C29-KF11", "targets": ARM, "floats": True,
      "sigs": [("KeyError", "arch/arch.py:get_reg_class", r"ir-typ fN"), ("KeyError", "codegen/irdag.py:new_vreg", r"ir-typ fN"), ("NotImplementedError", "codegen/irdag.py:do_return", r"Pass pointer as first arg instead"),
               SEL + (r"\w*F(32|64)\w*(\([\w,]*\))?",)]},
 ]
+
+
+def _module_facts(case):
+    """input features used by signatures: number of functions ending in 'r = call self(..); return r', widest call"""
+    from ppci import ir
+
+    m = build(case)
+    n, width = 0, 0
+    for f in m.functions:
+        for b in f:
+            for ins in b:
+                if isinstance(ins, (ir.FunctionCall, ir.ProcedureCall)):
+                    width = max(width, len(ins.arguments))
+        if any(len(b) >= 2 and isinstance(b[-1], ir.Return) and isinstance(b[-2], ir.FunctionCall) and b[-2] is b[-1].result
+               and b[-2].callee is f for b in f):
+            n += 1
+    return {"self_tail_call_functions": n, "max_call_args": width}
 
 
 def _uses_floats(case):
@@ -95,7 +127,7 @@ def _finding_for(case, exc, frame, item):
             if _uses_floats(case) and any(exc == e and frame == fr and re.fullmatch(rx, item) for e, fr, rx in f["sigs"]):
                 return f["id"]
             continue
-        if (exc, frame) == f["sig"] and re.fullmatch(f["detail"], item):
+        if (exc, frame) == f["sig"] and re.fullmatch(f["detail"], item) and ("pred" not in f or f["pred"](case)):
             return f["id"]
     return None
 
@@ -112,7 +144,7 @@ def classify(case, msg):
         return None
     items = detail[len("uncovered "):].split(" ") if detail.startswith("uncovered ") else [detail]
     ids = [_finding_for(case, exc, frame, it) for it in items]
-    if ids and all(ids):
+    if ids and all(ids) and all(i in open_finding_ids(PID) for i in ids):
         return sorted(ids)[0]
     return None
 
@@ -209,12 +241,17 @@ def profile(target):
             max_funcs=2,
             max_blocks=6,
             observe=False,
+            # thumb cannot pass arguments on the stack (C29-KF14): the tail-recursive shape has a 5th parameter
+            tailrec=not (target == "arm:thumb" and "C29-KF14" in open_finding_ids(PID)),
         )
     return _PROFILES[target]
 
 
 def ir_case(draw, target, level, opt, counts):
     desc = draw(genir.modules(profile(target)))
+    if level != "0" and sum(1 for f in desc["functions"] if f.get("tailrec")) >= 2 and "C29-KF13" in open_finding_ids(PID):
+        level = "0"  # two self-tail-recursive functions get the same block label from TailCallOptimization (C29-KF13)
+        counts["excluded:C29-KF13"] += 1
     allowed = set(cgstage.allowed_classes(target))
     excl = excluded_classes(target)
     if excl:
@@ -297,7 +334,7 @@ def _worker(arg):
 def run(ctx):
     import ppci.api  # noqa: F401  (import once in the parent, workers are forked)
 
-    n = ctx.scale(320, 24000)
+    n = ctx.scale(960, 32000)
     ctx.pmap(_worker, [(subseed(ctx.seed, PID, w), n // 16) for w in range(16)])
     reached = {t: set() for t in TARGETS}
     for k in list(ctx.stats.hist):
